@@ -23,7 +23,7 @@ RULE = ("schedules as in C04 with 0..4 side configs: every combination of interv
         "zero budgets; plus real DataLoader runs (0..3 workers) over tagged datasets; non-trivial = at least one side config; distinct by spec")
 ASSUMPTIONS = [
     "side segments are judged only when the main part of the stream equals the model's (otherwise C04 reports)",
-    "side samplers are deterministic (fixed order), so a whole pass is recognisable",
+    "side samplers are deterministic functions of their pass number (fixed order, or a new order on every pass), so a whole pass is recognisable",
     "DataLoader returns batches in batch-sampler order (torch guarantee)",
 ]
 MONITORS = ["updates_compared", "side_passes_observed", "loader_batches_checked", "zero_budget_runs"]
@@ -38,6 +38,9 @@ def gen_cases(run):
         cfgs = H.gen_configs(rng, g, max_cfg=5)
         if not cfgs and rng.random() < 0.8:
             cfgs = H.gen_configs(rng, g, max_cfg=5)
+        for c in cfgs:
+            if rng.random() < 0.3:
+                c["rotating"] = True  # a shuffling side sampler: every pass yields its own order
         spec = {"kind": "stream", "g": g, "budget": H.gen_budget(rng, g), "cfgs": cfgs, "seed": rng.randrange(10 ** 6)}
         if cfgs and rng.random() < 0.25:
             spec["pre_batch_size"] = rng.randint(1, g["N"])  # config objects shared with an earlier scheduler of another batch size
@@ -89,6 +92,8 @@ def run_case(run, spec):
         return
     if spec.get("pre_batch_size"):
         run.count("cases_with_reused_config_objects")
+    if any(c.get("rotating") for c in cfgs):
+        run.count("cases_with_reshuffling_side_samplers")
     sampler, main, sides, events = built
     mdl = H.model(g, budget, cfgs, lambda j, e: H.rec_draw(g["M"], g["N"], spec["seed"], e))
     cap = len(mdl["events"]) + 3 * (g["B"] + sum(c["n"] for c in cfgs)) + 10
